@@ -38,6 +38,7 @@ DIMS = [
     ("preexisting", [False, True]),   # a longer file already sits at the destination (regeneration)
     ("sname", ["schema.graphql", "schema.graphqls", "schema.gql", "schema.json"]),   # every schema file form the library reads
     ("qtext", ["lf", "crlf", "comments_tabs_bom_free"]),   # the query file's bytes reach the library unchanged
+    ("relative", [False, True]),   # paths given relative to the working directory (the output directory too)
 ]
 
 
@@ -74,6 +75,8 @@ def library_options(cfg):
 
 
 def argv_for(cfg, root):
+    if cfg.get("relative") and root != "<root>":
+        root = "."   # the command runs with the case's root as its working directory
     short = cfg["short_flags"]
     a = ["generate", "-s" if short else "--schema-path", os.path.join(root, cfg["sname"]), os.path.join(root, cfg["qname"])]
     if cfg["variables_derives"]:
@@ -285,7 +288,7 @@ def run(tier):
     shutil.rmtree(base, ignore_errors=True)
     cov = {
         "evaluations": len(cfgs) + len(fail_cases), "distinct_nontrivial": len(distinct),
-        "rule": "success clause: every setting of 15 dimensions (query file bytes LF / CRLF / comments+tabs, schema file form .graphql / .graphqls / .gql / .json, pre-existing output, derives, deprecation strategy incl. an invalid value, module "
+        "rule": "success clause: every setting of 16 dimensions (absolute / working-directory-relative paths, query file bytes LF / CRLF / comments+tabs, schema file form .graphql / .graphqls / .gql / .json, pre-existing output, derives, deprecation strategy incl. an invalid value, module "
                 "visibility, custom scalars module, other-variant, external enums, selected operation incl. a missing one, output "
                 "directory, formatting, query file name, short / long flag spelling) within deviation bound %d of the default "
                 "invocation; failure clause: up to %d instances of every invalidating edit kind of C06, an unparsable query, missing "
